@@ -398,6 +398,7 @@ func (w *World) find(ctx *Mod, path string, create bool) *E {
 	}
 	parts := strings.Split(path[1:], "/")
 	var cur *E
+	skipStep := false
 	for i, p := range parts {
 		pfx, base := split(p)
 		if i == 0 {
@@ -416,6 +417,17 @@ func (w *World) find(ctx *Mod, path string, create bool) *E {
 			}
 		}
 		next := cur.Kids[base]
+		if skipStep {
+			// the second of the two steps that name a shorthand member of a choice the RFC way
+			// (implied case, then the member): already taken
+			skipStep = false
+			continue
+		}
+		if next != nil && cur.Kind == "choice" && next.Kind != "case" && i+1 < len(parts) {
+			if _, nb := split(parts[i+1]); nb == base {
+				skipStep = true
+			}
+		}
 		if next == nil && cur.Kind == "rpc" && (base == "input" || base == "output") && create {
 			// an rpc or action always has an input and an output, written or not
 			next = newE(base, base, cur.NS)
